@@ -45,6 +45,12 @@ def compare(ctx, progs, H, maxbits=12, timeout=30, cmd='tsm', atoms_extra=None):
         A = As[i]
         ans = impl[i]
         rec = {'program': lang.prog_txt(p), 'status': 'agree', 'horizons': 0, 'models': 0}
+        if ans.get('status') == 'timeout':
+            # a run that exceeds the watchdog is a performance matter (e.g. exponential unfolding of nested until in heads), not a
+            # wrong answer: counted and skipped (hangs on small inputs are the business of C15)
+            rec.update(status='skip-timeout')
+            out.append(rec)
+            continue
         if ans.get('status') != 'ok':
             rec.update(status='implerror', error={k: ans.get(k) for k in ('status', 'type', 'msg', 'where', 'stage')})
             out.append(rec)
@@ -210,6 +216,10 @@ def value_check(ctx, items, H, timeout=40, cap=None):
     for i, ((c, fs), ans) in enumerate(zip(items, impl)):
         A, n, chosen, total = pre[i]
         rec = {'program': lang.prog_txt(progs[i]), 'status': 'agree', 'models': 0, 'values': 0, 'true_values': 0, 'answer_sets': total}
+        if ans.get('status') == 'timeout':
+            rec.update(status='skip-timeout')
+            out.append(rec)
+            continue
         if ans.get('status') != 'ok':
             rec.update(status='implerror', error={k: ans.get(k) for k in ('status', 'type', 'msg', 'where', 'stage')})
             out.append(rec)
